@@ -173,7 +173,10 @@ class SymArray:
             for idx in _np.ndindex(out.shape):
                 c = out[idx]
                 if isinstance(c, SN) and not c.is_int():
-                    raise UnsupportedByShim("astype(int) of a symbolic real")
+                    z3 = core.z3
+                    e = c.e
+                    out[idx] = SN(z3.If(e >= 0, z3.ToInt(e), -z3.ToInt(-e)))      # C cast: towards zero
+                    continue
                 if isinstance(c, (SB,)):
                     out[idx] = c._as_int()
                 elif isinstance(c, (float, bool)):
@@ -1424,6 +1427,37 @@ def floor(x):
 
 def ceil(x):
     return -floor(-(_as(x) if not is_sym(x) else x))
+
+
+def trunc(x):
+    """towards zero: floor for x >= 0, -floor(-x) otherwise"""
+    def cell(c):
+        if is_sym(c):
+            if c.is_int():
+                return c
+            e = lift(c)
+            z3 = core.z3
+            return SN(z3.If(e >= 0, z3.ToReal(z3.ToInt(e)), -z3.ToReal(z3.ToInt(-e))))
+        import math
+        return float(math.trunc(c))
+    return _map(x, cell, _F8)
+
+
+def modf(x):
+    """(fractional part, integral part), both with the sign of x (numpy.modf)"""
+    xa = _as(x) if not is_sym(x) else SymArray(_obj([x]))
+    ip = trunc(xa)
+    fp = xa - ip
+    if is_sym(x):
+        return fp.a[0], ip.a[0]
+    return fp, ip
+
+
+def atleast_2d(x):
+    a = _as(x)
+    if a.a.ndim >= 2:
+        return a
+    return SymArray(a.a.reshape(1, -1) if a.a.ndim == 1 else a.a.reshape(1, 1), a.dtype)
 
 
 def diff(x, n=1):
